@@ -445,8 +445,10 @@ type TaskResult struct {
 
 // Worker holds a loaded program and a solver.
 type Worker struct {
-	P   *Program
-	sol *solver
+	P     *Program
+	sol   *solver          // the solver of the current path
+	sols  [2]*solver       // [0] SAT-based core, [1] classic core
+	arith map[string]bool  // obligations that need the classic core
 	tt  *termTable
 	key string // harness+args the term table belongs to
 	mev, uev, pev evaluator
@@ -456,9 +458,24 @@ type Worker struct {
 func NewWorker(p *Program) *Worker { return &Worker{P: p} }
 
 func (w *Worker) Close() {
-	if w.sol != nil {
-		w.sol.close()
+	for _, s := range w.sols {
+		if s != nil {
+			s.close()
+		}
 	}
+}
+
+func (w *Worker) solverStats() (q [4]int, t time.Duration) {
+	for _, s := range w.sols {
+		if s != nil {
+			q[0] += s.Queries
+			q[1] += s.Sat
+			q[2] += s.Unsat
+			q[3] += s.Unknown
+			t += s.Time
+		}
+	}
+	return
 }
 
 // Run explores the subtree of t.Prefix by replay-based DFS.
@@ -473,13 +490,18 @@ func (w *Worker) Run(t *Task) *TaskResult {
 	covers := map[string]bool{}
 	obsSeen := map[string]bool{}
 	funcsSeen = map[*ssa.Function]bool{}
-	q0 := [5]int{}
-	var st0 time.Duration
-	if w.sol != nil {
-		q0 = [5]int{w.sol.Queries, w.sol.Sat, w.sol.Unsat, w.sol.Unknown, 0}
-		st0 = w.sol.Time
+	q0, st0 := w.solverStats()
+	if w.arith == nil {
+		w.arith = map[string]bool{}
+	}
+	if os.Getenv("GOSYM_Z3_NEWCORE") == "" {
+		// default: z3's classic SMT core.  The SAT-based core (sat.smt)
+		// is ~40% faster on some byte-only obligations but 5-100x slower
+		// on others (quoting, runes, decimal digits), so it is opt-in.
+		w.arith[fmt.Sprintf("%s%v", t.Harness, t.Args)] = true
 	}
 	curTask = t
+	firstPath := true
 	for len(pending) > 0 {
 		if res.Paths >= t.MaxPaths && t.MaxPaths > 0 {
 			break
@@ -491,15 +513,21 @@ func (w *Worker) Run(t *Task) *TaskResult {
 		pending = pending[:len(pending)-1]
 		key := fmt.Sprintf("%s%v", t.Harness, t.Args)
 		retain := -1
-		if w.tt == nil || w.key != key || len(w.tt.all) > 400000 || res.Paths == 0 {
+		si := 0
+		if w.arith[key] {
+			si = 1
+		}
+		switched := w.sols[si] == nil || w.sol != w.sols[si]
+		if w.sols[si] == nil {
+			w.sols[si] = newSolver(newTermTable(), si == 1)
+		}
+		w.sol = w.sols[si]
+		if w.tt == nil || w.key != key || len(w.tt.all) > 400000 || firstPath || switched {
 			// new obligation (or first path of a task): fresh terms and solver state
+			firstPath = false
 			w.tt = newTermTable()
 			w.key = key
-			if w.sol == nil {
-				w.sol = newSolver(w.tt)
-			} else {
-				w.sol.resetAll(w.tt)
-			}
+			w.sol.resetAll(w.tt)
 		} else {
 			// keep the solver scopes of the decisions shared with the previous path
 			for retain = 0; retain < len(prefix) && retain < len(w.prevDec) && prefix[retain] == w.prevDec[retain]; retain++ {
@@ -515,6 +543,12 @@ func (w *Worker) Run(t *Task) *TaskResult {
 		pc := &pathCtx{tt: tt, sol: w.sol, prefix: prefix, retain: retain, mev: &w.mev, uev: &w.uev, pev: &w.pev}
 		curTT, curPC = tt, pc
 		outcome := runOnce(w.P, t)
+		if outcome == "stop:switch-core" {
+			w.arith[key] = true
+			pending = append(pending, prefix)
+			w.prevDec = w.prevDec[:0]
+			continue
+		}
 		if !strings.HasPrefix(outcome, "stop:") {
 			// discharge the queued assertions of this path
 			func() {
@@ -592,13 +626,12 @@ func (w *Worker) Run(t *Task) *TaskResult {
 		res.Covers = append(res.Covers, k)
 	}
 	sort.Strings(res.Covers)
-	if w.sol != nil {
-		res.Queries = w.sol.Queries - q0[0]
-		res.Sat = w.sol.Sat - q0[1]
-		res.Unsat = w.sol.Unsat - q0[2]
-		res.QUnknown = w.sol.Unknown - q0[3]
-		res.SolverMs = float64(w.sol.Time-st0) / 1e6
-	}
+	q1, st1 := w.solverStats()
+	res.Queries = q1[0] - q0[0]
+	res.Sat = q1[1] - q0[1]
+	res.Unsat = q1[2] - q0[2]
+	res.QUnknown = q1[3] - q0[3]
+	res.SolverMs = float64(st1-st0) / 1e6
 	for f := range funcsSeen {
 		n := 0
 		for _, b := range f.Blocks {
